@@ -30,7 +30,11 @@ Triples == {Bin("AND", p, Bin("=", z, [k |-> "num", n |-> "1"])) : p \in {q \in 
 Twins == {Bin("AND", Bin("=", Fld(x, c), [k |-> "num", n |-> "1"]), Bin("=", Fld(y, c), [k |-> "num", n |-> "1"])) :
               x \in {"s1i", "e1", "t"}, y \in {"s2i", "e2", "u"}, c \in Cols}
          \cup {Bin("+", Bin("+", Fld(x, "a"), [k |-> "num", n |-> "1"]), Bin("+", Fld(y, "a"), [k |-> "num", n |-> "1"])) : x \in {"s1i", "e1"}, y \in {"s2i", "e2"}}
-Trees == Pairs \cup Triples \cup Twins
+\* containers whose FIRST item is a constant and a later one a column (the walk must not stop at the first literal)
+Mixed == {[k |-> "in", a |-> x, items |-> <<[k |-> "num", n |-> "0"], z>>] : x \in Core, z \in {Fld("v", "a"), Fld("t", "b"), Fld("s2i", "a")}}
+         \cup {[k |-> "call", f |-> "FN", args |-> <<[k |-> "num", n |-> "0"], x, [k |-> "num", n |-> "1"], z>>] : x \in Core, z \in {Fld("v", "a"), Fld("e2", "b")}}
+         \cup {[k |-> "between", a |-> [k |-> "num", n |-> "5"], lo |-> x, hi |-> z] : x \in Core, z \in {Fld("v", "a"), Fld("u", "b")}}
+Trees == Pairs \cup Triples \cup Twins \cup Mixed
 
 VARIABLES kind, item
 Init == \/ kind = "variant" /\ item \in Variants
